@@ -118,7 +118,7 @@ align 16
 	vpcmpeqb ymm0, ymm2, ymm0
 	vpmovmskb DWORD(tmp0), ymm0
 	not	DWORD(tmp0)
-	add	DWORD(tmp1), DWORD(tmp0)
+	or	DWORD(tmp1), DWORD(tmp0) ; not add: 1 + an all-ones mask wraps to zero
 	jz	.mem_z_loop
 
 .return:
@@ -146,7 +146,7 @@ align 16
 	sub	DWORD(len), 1
 	setz	al
 	add	src, 16
-	add	rax, tmp0
+	or	rax, tmp0 ; not add: 1 + all-ones wraps to zero
 	jz	.mem_z_small_block_loop
 
 	test	tmp0, tmp0
